@@ -509,8 +509,8 @@ static void look_for_objects_to_swap () {
 typedef struct
 {
   object_t *ob;
-  short heart_beat_ticks; /* ticks until next heart beat */
-  short time_to_heart_beat; /* configured heart beat interval (tick counts) */
+  int heart_beat_ticks; /* ticks until next heart beat */
+  int time_to_heart_beat; /* configured heart beat interval (tick counts): anything set_heart_beat() accepts */
 }
 heart_beat_t;
 
@@ -652,7 +652,7 @@ int set_heart_beat (object_t * ob, int to) {
           if (heart_beats[index].ob == ob)
             {
               heart_beats[index].time_to_heart_beat =
-                heart_beats[index].heart_beat_ticks = (short)to;
+                heart_beats[index].heart_beat_ticks = to;
               break;
             }
         }
@@ -678,7 +678,7 @@ int set_heart_beat (object_t * ob, int to) {
       hb->ob = ob;
       if (to < 0)
         to = 1;
-      hb->time_to_heart_beat = hb->heart_beat_ticks = (short)to;
+      hb->time_to_heart_beat = hb->heart_beat_ticks = to;
       ob->flags |= O_HEART_BEAT;
     }
 
